@@ -10,6 +10,7 @@ import (
 	"bytes"
 	"encoding/hex"
 	"encoding/json"
+	"errors"
 	"fmt"
 	"io"
 	"log/slog"
@@ -17,6 +18,7 @@ import (
 	"os"
 	"time"
 
+	"github.com/cuteLittleDevil/go-jt808/protocol/jt808"
 	"github.com/cuteLittleDevil/go-jt808/service"
 )
 
@@ -70,6 +72,18 @@ func main() {
 	_ = conn.Close()
 	ok, bad := 0, 0
 	for _, tr := range traces {
+		// the conversations re-use phone numbers: the previous connection's teardown must have released the key
+		// before the next one joins (otherwise the new connection is refused as a duplicate - correctly - and the
+		// comparison is meaningless). Decided by asking the server, not by sleeping.
+		if key := keyOf(tr); key != "" {
+			for i := 0; i < 4000; i++ {
+				m := srv.SendActiveMessage(service.NewActiveMessage(key, 0x8104, nil, 50*time.Millisecond))
+				if m != nil && errors.Is(m.ExtensionFields.Err, service.ErrNotExistKey) {
+					break
+				}
+				time.Sleep(5 * time.Millisecond)
+			}
+		}
 		if msg := play(addr, tr); msg != "" {
 			bad++
 			fmt.Printf("MISMATCH %s: %s\n", tr.Name, msg)
@@ -81,6 +95,19 @@ func main() {
 	if bad > 0 {
 		os.Exit(1)
 	}
+}
+
+// keyOf: the session key (phone number) of the conversation's first frame.
+func keyOf(tr trace) string {
+	if len(tr.Steps) == 0 {
+		return ""
+	}
+	data, _ := hex.DecodeString(tr.Steps[0].Send)
+	m := jt808.NewJTMessage()
+	if err := m.Decode(data); err != nil {
+		return ""
+	}
+	return m.Header.TerminalPhoneNo
 }
 
 func play(addr string, tr trace) string {
@@ -100,7 +127,7 @@ func play(addr string, tr trace) string {
 			w, _ := hex.DecodeString(e)
 			want = append(want, w...)
 		}
-		deadline := time.Now().Add(3 * time.Second)
+		deadline := time.Now().Add(20 * time.Second) // generous: only a missing reply ever waits this long
 		for len(pending) < len(want) {
 			_ = c.SetReadDeadline(deadline)
 			buf := make([]byte, 4096)
